@@ -50,21 +50,3 @@ Definition c13_known : list string := ["PadIfNeeded"].
 (* ---- C11: no in-place write to a caller-owned value ---- *)
 Definition no_mutation : bool := is_nil mutation_table.
 
-Lemma persist_complete_partial :
-  forallb (fun c => persist_complete c || mem (c_name c) c14_known) class_table = true.
-Proof. vm_compute. reflexivity. Qed.
-Lemma todict_ok : forallb todict_row_ok todict_table = true.
-Proof. vm_compute. reflexivity. Qed.
-Lemma targets_ok : forallb (fun c => image_only_targets_ok c && dual_targets_ok c) class_table = true.
-Proof. vm_compute. reflexivity. Qed.
-Lemma entropy_ok : forallb (fun r => entropy_row_ok r && identity_row_ok r) entropy_table = true.
-Proof. vm_compute. reflexivity. Qed.
-Lemma mask_interp_all : forallb mask_interp_ok class_table = true.
-Proof. vm_compute. reflexivity. Qed.
-Lemma draws_inside_partial :
-  forallb (fun c => draws_inside_ok c || mem (c_name c) c13_known) class_table = true.
-Proof. vm_compute. reflexivity. Qed.
-Lemma no_mutation_ok : no_mutation = true.
-Proof. vm_compute. reflexivity. Qed.
-Lemma table_nonempty : Nat.leb 40 (List.length class_table) = true /\ Nat.leb 300 functions_analysed = true.
-Proof. vm_compute. split; reflexivity. Qed.
